@@ -68,6 +68,12 @@ CLAIMED = {
         note="Generators called in-process; header aliases are evaluated with C preprocessor semantics by the harness reader; ordering inside files is left open; rename tables of <= 4 lines over <= 2 options.",
         design_ref="DESIGN.md section 3, C07",
     ),
+    "C11": dict(
+        technique="TLA+ Load with a rename table and Rewrite (spec/KStore.tla); TLC checks AliasEquiv and NoUnknownAlias on the model for every (rename table, file) case (spec/MC_Rename.tla), compares the specification's result with the real loader on the file and on its rewriting, and evaluates AliasEquiv / NoUnknownAlias / BlockIgnored / BlockEval on the observations",
+        text="Model checking: for every ordered selection of <= 3 lines mixing deprecated and new names (valid, invalid, default-marked, unknown) under four rename tables, TLC evaluates Load(F) and Load(Rewrite(F)) on the specification, checks they coincide, and compares both with two real loads into fresh instances; files with a contradicting deprecated block are additionally loaded without the block and with load_deprecated=True (eval_string on the old names).",
+        note="One fixed 9-option program; rename tables: multiple files, duplicates (both inversion orders), inversion on a non-bool, lower-case old name, alias of a choice member, alias of an undefined option (only 'nothing raises / no defined option changes' required there).",
+        design_ref="DESIGN.md section 3, C11",
+    ),
 }
 
 REASON_PENDING = "check not built yet in this session (planned in DESIGN.md section 3); not claimed until its TLA+ model and conformance harness exist"
